@@ -266,7 +266,6 @@ package verifspec
 //@   param ctx path srcDir mode
 //@   results p err
 //@   ensures err == nil ==> p != nil
-//@ extern path/filepath.Join
 //@ extern path/filepath.IsAbs
 //@ extern path/filepath.Clean
 //@ extern sort.Strings
